@@ -1,5 +1,6 @@
 import TmVerif.Proofs.LRXRecover
 import TmVerif.Proofs.LRXSafeMain
+import TmVerif.Proofs.LRXHalt
 /-!
 C19 — error recovery is safe and transparent (property theorems only; what the runtime model
 `Model/LRX.lean` carries: transparency on runs without reported errors, monotone error offsets
@@ -146,7 +147,8 @@ theorem C19_no_panic (g : Grammar) (x : XTables) (cert : Cert) (xc : XCert) (inp
     rw [Array.getElem?_eq_getElem hlt] at hfin
     cases hfin
   | some fin =>
-    exact xrunLoop_no_panic hcf hxf htok fin stop k fuel _ (xinv_xinit inp i hi)
+    have hfi : fin = finOf x i := by unfold finOf; rw [hfin]; rfl
+    exact xrunLoop_no_panic hcf hxf htok fin hfi stop k fuel _ (xinv_xinit (hxf.closed hcf) inp hi)
 
 /-- Every configuration the loop reaches from the initial one satisfies the invariant `XInv`
 (Proofs/LRXSafeStep.lean): the states on the stack form a path of transitions of the tables that
@@ -155,9 +157,11 @@ theorem C19_invariant_reachable (g : Grammar) (x : XTables) (cert : Cert) (xc : 
     (i : Nat) (fin : Int) (stop : Bool) (k : Nat) (c : XCfg) (m : Nat)
     (hc : certOk g x.t cert = true) (hx : xwf g x cert xc = true)
     (htok : ∀ tk ∈ inp.toks.toList, 0 < tk.sym ∧ tk.sym < (x.t.nTerms : Int))
-    (hi : i < g.inputs.size) (h : XIter x inp fin stop k (xinit inp i) c m) :
-    XInv g x cert inp c :=
-  h.inv (certFacts hc) (xFacts hx) htok (xinv_xinit inp i hi)
+    (hi : i < g.inputs.size) (hfin : x.t.finalStates[i]? = some fin)
+    (h : XIter x inp fin stop k (xinit inp i) c m) :
+    XInv g x cert i inp c :=
+  h.inv (certFacts hc) (xFacts hx) htok (by unfold finOf; rw [hfin]; rfl)
+    (xinv_xinit ((xFacts hx).closed (certFacts hc)) inp hi)
 
 /-- Recovery's own loops terminate within the fuel the model gives them — their out-of-fuel
 branches are unreachable: from any configuration `c` satisfying the invariant (all reachable ones
@@ -171,31 +175,77 @@ do, `C19_invariant_reachable`; so do the configurations recovery itself passes o
   decreases with every simulated reduction).
 What remains open is only the main loop's own fuel (chains of real reductions). -/
 theorem C19_recovery_terminates (g : Grammar) (x : XTables) (cert : Cert) (xc : XCert) (inp : Input)
-    (fin : Int) (c : XCfg)
+    (i : Nat) (fin : Int) (c : XCfg)
     (hc : certOk g x.t cert = true) (hx : xwf g x cert xc = true)
     (htok : ∀ tk ∈ inp.toks.toList, 0 < tk.sym ∧ tk.sym < (x.t.nTerms : Int))
-    (hrec : x.recovering = true) (hinv : XInv g x cert inp c) :
+    (hrec : x.recovering = true) (hfin : x.t.finalStates[i]? = some fin)
+    (hinv : XInv g x cert i inp c) :
     (∀ can e extra, skipBroken inp can (inp.toks.size + 2 + extra) c e =
         skipBroken inp can (inp.toks.size + 2) c e) ∧
     (∀ rp, RPOk x c.stack rp → ∀ syms s e, ∃ res, ∀ extra,
         recoverLoop x inp fin rp (inp.toks.size + 3 + extra) c syms s e = some res) ∧
-    (∀ (q : Nat) (sts : List Nat) (syms : List Int) (a : Nat), StOk g x cert (q :: sts) syms →
+    (∀ (q : Nat) (sts : List Nat) (syms : List Int) (a : Nat), StOk g x cert i (q :: sts) syms →
         a < x.t.nTerms → ∃ b, ∀ extra,
         reduceAllLoop x a fin (4 * ((sts.map Int.ofNat).length + x.t.nStates + 4) + extra)
           (sts.map Int.ofNat) [(q : Int)] q = some b) := by
   have hcf := certFacts hc
   have hxf := xFacts hx
+  have hfi : fin = finOf x i := by unfold finOf; rw [hfin]; rfl
   refine ⟨?_, ?_, ?_⟩
   · intro can e extra
     obtain ⟨_, _, _, _, _, _, hn⟩ := hinv
     exact (skipBroken_spec inp can (inp.toks.size + 2) c e hn (by omega) (by omega)).2.2.2.2.2.2 extra
   · intro rp hrp syms s e
-    obtain ⟨res, _, hres⟩ := recoverLoop_total hcf hxf hrec htok fin rp (inp.toks.size + 3) c syms s e
+    obtain ⟨res, _, hres⟩ := recoverLoop_total hcf hxf hrec htok fin hfi rp (inp.toks.size + 3) c syms s e
       hinv hrp (by omega) (by omega) (Or.inr (by omega))
     exact ⟨res, hres⟩
   · intro q sts syms a hst ha
-    obtain ⟨b, _, hb, _⟩ := reduceAll_total hcf hxf ha fin hst
+    obtain ⟨b, _, hb, _⟩ := reduceAll_total hcf hxf ha fin hfi hst
     exact ⟨b, hb⟩
+
+/-- Halting, recovery included: for certified tables (`certOk`, `xwf`, and `xhaltOk`: from a
+reachable state other than the final one EOI is shifted into the final state only) the extended
+loop needs at most `(2·|w| + 2) · (4 · nStates + 12 + weight)` iterations on a token string `w`:
+with more fuel than that the model never answers `fuel` — by `C19_no_panic` every run ends with
+accept, a syntax error, or cancellation. The potential
+`W · (2 · (tokens left) + [not committed]) + weight · (stack height) + rank i (next token) (top state)`
+decreases with every iteration: a reduction lowers `weight · height + rank`; a shift consumes a
+token (a shift of EOI enters the final state); an error iteration calls recovery, which never
+gives tokens back, leaves a stack no higher than before plus one entry, and hands back a
+COMMITTED configuration — `reduceAll` has simulated the reductions under the next token down to a
+shift, the real loop then performs exactly these reductions, so the next error needs a token to be
+consumed first. -/
+theorem C19_halts (g : Grammar) (x : XTables) (cert : Cert) (xc : XCert) (inp : Input)
+    (i : Nat) (stop : Bool) (k fuel : Nat)
+    (hc : certOk g x.t cert = true) (hx : xwf g x cert xc = true) (hh : xhaltOk g x cert = true)
+    (htok : ∀ tk ∈ inp.toks.toList, 0 < tk.sym ∧ tk.sym < (x.t.nTerms : Int))
+    (hi : i < g.inputs.size)
+    (hfuel : (2 * inp.toks.size + 2) * (4 * x.t.nStates + 12 + xc.weight) < fuel) :
+    (xrun x inp i stop k fuel).1 ≠ XResult.fuel := by
+  have hcf := certFacts hc
+  have hxf := xFacts hx
+  unfold xrun
+  cases hfin : x.t.finalStates[i]? with
+  | none => exact fun h => nomatch h
+  | some fin =>
+    have hfi : fin = finOf x i := by unfold finOf; rw [hfin]; rfl
+    have hinv := xinv_xinit (g := g) (hxf.closed hcf) inp hi
+    refine xrunLoop_halts hcf hxf (haltFacts hh) htok fin hfi stop k fuel _ false hinv
+      (fun h => nomatch h) ?_
+    have hr := hinv.rank_le hcf hxf htok
+    have hx0 : xidx (xinit inp (i : Nat)) = 0 := rfl
+    unfold xpsi
+    rw [hx0] at hr ⊢
+    simp only [Bool.false_eq_true, if_false, Nat.sub_zero]
+    have hl : (xinit inp (i : Nat)).stack.length = 1 := rfl
+    rw [hl, Nat.mul_one]
+    unfold xW
+    have : (2 * inp.toks.size + 2) * (4 * x.t.nStates + 12 + xc.weight) =
+        (4 * x.t.nStates + 12 + xc.weight) * (2 * inp.toks.size + 1) +
+          (4 * x.t.nStates + 12 + xc.weight) := by
+      rw [Nat.mul_comm, show 2 * inp.toks.size + 2 = (2 * inp.toks.size + 1) + 1 by omega,
+        Nat.mul_add, Nat.mul_one]
+    omega
 
 /-! ### non-vacuity
 
@@ -274,7 +324,7 @@ private def sX : XTables :=
 private def sCert : Cert :=
   { past := #[[], [2], [5], [6, 2], [4, 5], [6], [0, 6]], reach := #[[6, 4, 3, 5, 2, 1, 0]] }
 private def sXC : XCert :=
-  { weight := 1, rank := #[#[4, 4, 0, 2, 2, 2, 0], #[0, 0, 0, 0, 0, 0, 0], #[0, 0, 0, 0, 0, 0, 0], #[0, 0, 0, 0, 0, 0, 0], #[0, 0, 0, 0, 0, 0, 0], #[0, 0, 0, 0, 0, 0, 0]] }
+  { weight := 1, rank := #[#[#[4, 4, 0, 2, 2, 2, 0], #[0, 0, 0, 0, 0, 0, 0], #[0, 0, 0, 0, 0, 0, 0], #[0, 0, 0, 0, 0, 0, 0], #[0, 0, 0, 0, 0, 0, 0], #[0, 0, 0, 0, 0, 0, 0]]] }
 private def sBad : Input := { toks := #[⟨2,0,1⟩, ⟨3,1,2⟩, ⟨3,2,3⟩, ⟨4,3,4⟩], endOff := 4 }
 
 example : certOk sG sT sCert = true ∧ xwf sG sX sCert sXC = true ∧ sX.recovering = true ∧
@@ -289,9 +339,15 @@ example : (xrun sX sBad 0 false 0 100).1 ≠ XResult.panic :=
 /-- `C19_recovery_terminates` at the initial configuration of that run -/
 example : ∀ extra, skipBroken sBad (fun _ => false) (sBad.toks.size + 2 + extra) (xinit sBad 0) 0 =
     skipBroken sBad (fun _ => false) (sBad.toks.size + 2) (xinit sBad 0) 0 :=
-  fun extra => (C19_recovery_terminates sG sX sCert sXC sBad 6 (xinit sBad 0) (by decide +kernel)
-    (by decide +kernel) (by decide +kernel) rfl
+  fun extra => (C19_recovery_terminates sG sX sCert sXC sBad 0 6 (xinit sBad 0) (by decide +kernel)
+    (by decide +kernel) (by decide +kernel) rfl (by decide +kernel)
     (C19_invariant_reachable sG sX sCert sXC sBad 0 6 false 0 _ 0 (by decide +kernel)
-      (by decide +kernel) (by decide +kernel) (by decide +kernel) (.refl _))).1 _ 0 extra
+      (by decide +kernel) (by decide +kernel) (by decide +kernel) (by decide +kernel)
+      (.refl _))).1 _ 0 extra
+
+/-- `C19_halts` on the broken input above: 10 · 41 = 410 iterations suffice -/
+example : (xrun sX sBad 0 false 0 411).1 ≠ XResult.fuel :=
+  C19_halts sG sX sCert sXC sBad 0 false 0 411 (by decide +kernel) (by decide +kernel)
+    (by decide +kernel) (by decide +kernel) (by decide +kernel) (by decide +kernel)
 
 end TmVerif.LRX
